@@ -397,6 +397,9 @@ func guardsOf(f *ssa.Function, in ssa.Instruction) []string {
 
 func checkC01(c *Ctx) {
 	r := c.R
+	// ---- C01.11 "ClientConf generation": the station derives from the generation as the current subnet file defines it -
+	// a reload replaces the selector as a whole (shared with C07.8)
+	checkSelectorReplaced(c, "C01.11")
 
 	// ================= C01.1 labels
 	r.Rule("C01.1", "derivation labels are compile-time strings equal to the published table; HMAC tags are keyed by the shared secret", 12)
